@@ -55,6 +55,7 @@ J gen_seq(const std::string& prop, uint64_t run_seed, const std::string& tier) {
       if (g.chance(1, 12)) {   // a definite container announcing more than any allocator will give
         static const uint8_t H[] = {0x9a, 0x9b, 0xba, 0xbb};
         uint8_t h = H[g.below(4)]; bytes.push_back(h); int w = (h & 1) ? 8 : 4; uint64_t cnt = g.chance(1, 2) ? gen_u64(g) | (1ull << 28) : (1ull << g.range(10, 40));
+        if (g.chance(1, 3)) cnt = ((uint64_t)g.range(1, 15) << g.range(60, 63)) + (g.chance(1, 2) ? 0 : g.below(4));   // counts whose byte size wraps around 2^64 to (almost) nothing
         for (int k = w - 1; k >= 0; k--) bytes.push_back((uint8_t)(cnt >> (8 * k)));
       } else if (!(lite && impl_max_stack() > 64) && g.chance(1, impl_max_stack() <= 64 ? 7 : 150)) {   // nesting around the decoder's limit (what 'nests beyond the limit' and 'never a hard error for a prefix' are about)
         unsigned L = impl_max_stack(); std::vector<uint64_t> kinds; unsigned nk = (unsigned)g.range(1, 4); for (unsigned k = 0; k < nk; k++) kinds.push_back(g.below(12));
